@@ -1,6 +1,8 @@
 /- model driver for C02: one operation per input line, one canonical line out -/
 import Batchie.Model.DriverLoop
+import Batchie.Model.ScreenIO
+import Batchie.Model.RetroIO
 
 open Batchie
 
-def main : IO Unit := DriverLoop.run []
+def main : IO Unit := DriverLoop.run [RetroIO.handle, ScreenIO.handle]
